@@ -46,7 +46,7 @@ func l3Unit(name string, params map[string]int, only string, what string) Unit {
 
 var (
 	l3Scalars = map[string]int{"KINDS": 15, "DEPTH": 0}
-	l3Enums   = map[string]int{"KINDS": 4032, "DEPTH": 0}
+	l3Enums   = map[string]int{"KINDS": 8128, "DEPTH": 0}
 	l3Arrays  = map[string]int{"KINDS": 16, "DEPTH": 1, "ITEMKINDS": 3, "NUMSHAPES": 3, "STRSHAPES": 2}
 	l3Objects = map[string]int{"KINDS": 32, "DEPTH": 1, "ITEMKINDS": 7, "NUMSHAPES": 3, "STRSHAPES": 2}
 )
@@ -144,8 +144,8 @@ func init() {
 	reg(&Property{ID: "C02", Units: l3All("C02.")})
 	reg(&Property{ID: "C03", Units: l3All("C03.")})
 	reg(&Property{ID: "C08", Units: []Unit{
-		l3Unit("enums", map[string]int{"KINDS": 448, "DEPTH": 0}, "C08.", "string/integer/mixed enums, typed and untyped, inline and via $ref"),
-		l3Unit("enums-in-arrays-and-objects", map[string]int{"KINDS": 48, "DEPTH": 1, "ITEMKINDS": 192}, "C08.", "enums as array items and object members"),
+		l3Unit("enums", map[string]int{"KINDS": 4544, "DEPTH": 0}, "C08.", "string/integer/mixed/string-or-null enums, typed and untyped, inline and via $ref, required and optional"),
+		l3Unit("enums-in-arrays-and-objects", map[string]int{"KINDS": 48, "DEPTH": 1, "ITEMKINDS": 4288}, "C08.", "enums as array items and object members"),
 	}})
 	reg(&Property{ID: "C19", Units: l3All("C19.")})
 	reg(&Property{ID: "C09", Units: []Unit{
@@ -158,8 +158,8 @@ func init() {
 	reg(&Property{ID: "C17", Units: []Unit{
 		{Name: "yaml-vs-json/scalars-and-string-enums", Harness: "pkg/generator:HarnessC17", Layer: "L3",
 			Desc:   "generator with --extra-imports; both emitted methods of every type run symbolically on the same symbolic type-correct document (valid, or violating required/bound/length/pattern/string-enum rules): same verdict, equal decoded values",
-			Bounds: "shapes: string/number/integer/boolean/string-enum properties x nullable x required x inline/$ref; default tag set; yaml.v3 and encoding/json decode stubs agree on type-correct input (assumption, validated on replay)",
-			Quick:  map[string]int{"GRID": 2, "GRIDMAG": 36, "N": 2},
+			Bounds: "shapes: string/number/integer/boolean/string-enum properties x nullable x required x inline/$ref x with/without default; default tag set; yaml.v3 and encoding/json decode stubs agree on type-correct input (assumption, validated on replay)",
+			Quick:  map[string]int{"GRID": 2, "GRIDMAG": 36, "N": 2, "DEFAULTS": 1, "NUMSHAPES": 5},
 			Panic:  "inconclusive"},
 		{Name: "yaml-vs-json/arrays-and-objects", Harness: "pkg/generator:HarnessC17", Layer: "L3",
 			Desc:   "same for arrays of scalars and a nested object",
@@ -168,10 +168,10 @@ func init() {
 			Panic:  "inconclusive"},
 	}, Assumptions: []string{"for type-correct documents yaml.v3's Decode and encoding/json's Unmarshal fill Go values identically (binding by the yaml / json tag of the default tag set)"}})
 	reg(&Property{ID: "C12", Units: []Unit{
-		{Name: "map-order-schedules", Harness: "pkg/generator:HarnessC12", Layer: "L3", MapOrd: 3, SameEmits: true,
+		{Name: "map-order-schedules", Harness: "pkg/generator:HarnessC12", Layer: "L3", MapOrd: 5, SameEmits: true,
 			Desc:   "every `range` over a Go map executed in repository code (sites discovered dynamically: sortedKeys, sortDefinitionsByName, Sources, beginOutput, hasDecl...) is a schedule choice; all orders of maps with <= 3 entries are explored and every schedule must emit byte-identical files under identical names (hole terms compared syntactically)",
-			Bounds: "two harness shapes (single file with 3 properties / 2 definitions; two schema ids mapped to two files and packages); maps with <= K=3 entries per site; schedules are enumerated by forking -- the solver contributes nothing here beyond hole identity (weakest fit of the family, stated in DESIGN §8 C12); JSON key permutation is map order after parsing; directory independence and main.go's allKeys are not covered",
-			Quick:  map[string]int{"SHAPES": 2},
+			Bounds: "three harness shapes (single file with 3 properties / 2 definitions; two schema ids mapped to two files and packages; definition names differing only in case); maps with <= K=5 entries per site; schedules are enumerated by forking -- the solver contributes nothing here beyond hole identity (weakest fit of the family, stated in DESIGN §8 C12); JSON key permutation is map order after parsing; directory independence and main.go's allKeys are not covered",
+			Quick:  map[string]int{"SHAPES": 3},
 			Panic:  "inconclusive"},
 	}})
 	reg(&Property{
